@@ -100,6 +100,8 @@ def route(case, soft_ok=False):
         if ins and i > 0 and not soft_ok:
             raise Conflict("input-file-and-pipe", False)
         for o in ops:
+            if o.get("multi"):
+                raise Conflict("redirect-target-is-several-words", True)
             if o["cls"] == "IN" and o.get("missing"):
                 raise Conflict("input-file-missing", True)
             if o["cls"] in FILE_CLASSES and o.get("nodir"):
@@ -287,6 +289,7 @@ PIPE_COMBOS = [("OUT", "E2P"), ("E2P", "OUT"), ("E2P",), ("A2P",), ("E2O",), ("E
 BAD = [
     ("OUT", "OUT"), ("ERR", "ERR"), ("ALL", "ERR"), ("ALL", "OUT"), ("OUT", "ALL"), ("ERR", "E2O"), ("E2O", "ERR"), ("OUT", "O2E"), ("O2E", "OUT"),
     ("A2P",), ("E2P",), ("IN", "IN"), ("IN-missing",), ("OUT-nodir",), ("ERR-nodir",), ("ALL-nodir",), ("OUT", "A2P"), ("E2O", "E2O"),
+    ("OUT-multi",), ("ERR-multi",), ("ALL-multi",), ("OUT-multi",),
 ]
 
 
@@ -295,6 +298,20 @@ def pick(rng, fam, i, existing, idx):
         o = mkop("IN", "<", i, rng, existing)
         if fam.endswith("missing"):
             o["target"], o["missing"] = "missing_input", True
+        if fam.endswith("multi"):
+            for nm in ("m1.txt", "m2.txt"):
+                if nm not in existing:
+                    existing.append(nm)
+            o["target"], o["multi"] = '@(["m1.txt", "m2.txt"])', True
+        return o
+    if fam.endswith("-multi"):
+        # a target that expands to two words (a glob with two matches, a two-element @() list): an error, never the first word
+        cls = fam.split("-")[0] + rng.choice(["_W", "_A"])
+        o = mkop(cls, rng.choice(SPELL[cls]), i, rng, existing, idx)
+        for nm in ("m1.txt", "m2.txt"):
+            if nm not in existing:
+                existing.append(nm)
+        o["target"], o["multi"] = rng.choice(['@(["m1.txt", "m2.txt"])', '@(["m1.txt", "new.txt"])', '@(["new1.txt", "new2.txt", "m2.txt"])']), True
         return o
     nodir = fam.endswith("-nodir")
     fam = fam.split("-")[0]
@@ -569,6 +586,8 @@ class C07:
         if conflict is not None and (conflict.strict and not case.get("undoc")):
             if err and err[0] in ("XonshError", "SyntaxError") and not ran:
                 return [], "error-ok"
+            if err and conflict.cls == "redirect-target-is-several-words" and "Unsupported redirect" in str(err[1]) and not ran:
+                return [], "error-ok"  # raised as a bare Exception by resolve_args_list
             if err is None or ran:
                 return [(f"NO-ERROR/{conflict.cls}/{kinds}{nothread}", info)], "error-missing"
             return [(f"WRONG-ERROR/{conflict.cls}/{err[0]}/{kinds}{nothread}", info)], "error-wrong"
